@@ -112,9 +112,9 @@ def generate(workdir, dm, annexed, omp):
         if omp == "parallel_do":
             for l in sched.walk(Loop):
                 DynamoOMPParallelLoopTrans().apply(l)
-        elif omp == "do":
+        elif omp in ("do", "do_reprod"):
             for l in sched.walk(Loop):
-                Dynamo0p3OMPLoopTrans().apply(l, {"reprod": False})
+                Dynamo0p3OMPLoopTrans().apply(l, {"reprod": omp == "do_reprod"})
                 OMPParallelTrans().apply(l.parent.parent)
         return str(psy.gen)
     finally:
@@ -528,6 +528,10 @@ def main():
         configs += [(False, False, "parallel_do"), (True, True, "parallel_do"), (True, False, "do"),
                     (False, True, None), (True, True, "do"), (False, False, "do")]
     jobs = [(n, dm, ax, omp, K) for n in names for dm, ax, omp in configs]
+    # reproducible OpenMP reductions (thread-local partial sums): the reduction built-ins in every tier
+    red = [n for n in names if "innerproduct" in n or "sum_" in n]
+    jobs += [(n, dm, ax, "do_reprod", K) for n in (red if tier == "quick" else names)
+             for dm, ax in ((False, False), (True, False))]
     results = core.pmap(work, jobs)
     mjobs = [(sq, dm, ax, plan, K + 1) for sq in SEQS for dm, ax in ((False, False), (True, False), (True, True))
              for plan in ("none", "forwards", "backwards")]
